@@ -367,6 +367,11 @@ func RunC13(ctx *core.Ctx) *core.Violation {
 		n = t.Range(1001, 12000) // long enough to refill the default 4 KiB buffer several times
 		ctx.Count("probe_long_input")
 	}
+	huge := t.Chance(1, 400)
+	if huge {
+		n = t.Pick(16384, 20000, 65536, 70000) + t.Draw(3) - 1
+		ctx.Count("probe_huge_input")
+	}
 	alphabet := t.Draw(3)
 	data := genData(t, n, alphabet)
 	plan := faultio.DrawPlan(t, n, t.Chance(1, 2))
@@ -375,6 +380,9 @@ func RunC13(ctx *core.Ctx) *core.Violation {
 	allowExt := t.Chance(1, 4)
 	maxLA := t.Pick(1, 2, 4, 9, 40, 200)
 	maxTok := t.Pick(1, 3, 8, 20, 70, 400)
+	if huge || t.Chance(1, 60) {
+		maxTok = t.Pick(4095, 4096, 4097, 5000, 9000) // tokens longer than the default buffer
+	}
 	stopN := t.Pick(8, 32, 128)
 	drain := t.Chance(1, 2)
 	// swarm: op mask
